@@ -22,7 +22,7 @@ from __future__ import annotations
 import ast
 from typing import Dict, FrozenSet, List, Optional, Set, Tuple
 
-from ..index import ClassInfo, FuncInfo, ModuleInfo, dotted, get_index
+from ..index import ClassInfo, FuncInfo, ModuleInfo, dotted, get_index, norm
 from ..pathwalk import PState, TooManyPaths, Walker
 from ..registry import get_registry
 from ..report import AnalysisError, Context
@@ -220,6 +220,7 @@ def run(ctx: Context) -> None:
     clause_d(ctx)
     clause_e(ctx)
     clause_f(ctx)
+    clause_g(ctx)
 
 
 # ---------------------------------------------------------------------------------------------------------------
@@ -915,3 +916,67 @@ def clause_f(ctx: Context) -> None:
                                           f"positions among the active modes to original mode labels: with post-selected modes present the rows of "
                                           f"those modes are transformed too", ast.unparse(a)[:120])
     ctx.require_floor("C05f assignments of the effective interferometer", n, 2)
+
+
+def clause_g(ctx: Context) -> None:
+    """Pairing of the Gram matrix with the amplitudes in the general partial-distinguishability kernel.  For the documented convention
+    G[i, j] = <phi_i|phi_j>, the term  amplitude(i) * conj(amplitude(j))  carries the overlap <phi_j|phi_i> = conj(G[i, j]) (= G^T[i, j]):
+    `G' * outer(v, conj(v))` needs G' = conj(G) or G^T, `G' * outer(conj(v), v)` needs G' = G.  With two photons only |G[i, j]|^2 enters;
+    from three photons on a wrong pairing gives the statistics of the complex-conjugate internal states."""
+    ctx.rule("C05g", "in the general Gram-matrix kernel the overlap matrix is paired with the amplitudes as <phi_j|phi_i> for amplitude(i) conj(amplitude(j)): "
+                     "outer(v, conj(v)) goes with conj(G) / G^T, outer(conj(v), v) with G")
+    idx = get_index(ctx.repo)
+    fn = idx.find_function("piquasso._simulators.passive.probabilities", "get_lossy_partially_distinguishable_detection_probabilities")
+    params = fn.params()
+    defs: Dict[str, List[ast.AST]] = {}
+    for a in ast.walk(fn.node):
+        if isinstance(a, ast.Assign) and len(a.targets) == 1 and isinstance(a.targets[0], ast.Name):
+            defs.setdefault(a.targets[0].id, []).append(a.value)
+
+    def conj_state(e: ast.AST, depth: int = 0) -> Optional[bool]:
+        """True: conjugated / transposed overlap parameter; False: the plain parameter; None: something else (e.g. the scalar form)"""
+        if isinstance(e, ast.Name) and e.id in params:
+            return False
+        if isinstance(e, ast.Call) and (dotted(e.func) or "").split(".")[-1] in ("conj", "conjugate", "transpose") and e.args:
+            r = conj_state(e.args[0], depth)
+            return None if r is None else not r
+        if isinstance(e, ast.Call) and isinstance(e.func, ast.Attribute) and e.func.attr in ("conj", "conjugate", "transpose") and not e.args:
+            r = conj_state(e.func.value, depth)
+            return None if r is None else not r
+        if isinstance(e, ast.Attribute) and e.attr == "T":
+            r = conj_state(e.value, depth)
+            return None if r is None else not r
+        if isinstance(e, ast.Name) and e.id in defs and depth < 4:
+            rs = {conj_state(d_, depth + 1) for d_ in defs[e.id]} - {None}
+            return next(iter(rs)) if len(rs) == 1 else None
+        return None
+
+    def is_conj(e: ast.AST) -> bool:
+        return (isinstance(e, ast.Call) and (dotted(e.func) or "").split(".")[-1] in ("conj", "conjugate")) or \
+               (isinstance(e, ast.Call) and isinstance(e.func, ast.Attribute) and e.func.attr in ("conj", "conjugate") and not e.args)
+
+    n = 0
+    for b in ast.walk(fn.node):
+        if not (isinstance(b, ast.BinOp) and isinstance(b.op, ast.Mult)):
+            continue
+        for g_, o_ in ((b.left, b.right), (b.right, b.left)):
+            if isinstance(o_, ast.Call) and (dotted(o_.func) or "").split(".")[-1] == "outer" and len(o_.args) == 2:
+                gs = conj_state(g_)
+                if gs is None:
+                    continue
+                first_conj, second_conj = is_conj(o_.args[0]), is_conj(o_.args[1])
+                if first_conj == second_conj:
+                    ctx.error(f"C05g: `{norm(o_)[:60]}` is not an outer product of a vector with its conjugate (undecided)")
+                    continue
+                n += 1
+                want_conj = second_conj      # outer(v, conj(v)): amplitude(i) conj(amplitude(j))  ->  conj(G)
+                ok = gs == want_conj
+                key = f"{fn.qualname}|{norm(b)[:50]}"
+                ctx.obligation("C05g", key, ok, f"{ctx.relpath(fn.file)}:{b.lineno}")
+                if not ok:
+                    ctx.violation("C05g", key, fn.file, b.lineno,
+                                  f"`{norm(b)[:80]}` pairs amplitude(i) {'conj(amplitude(j))' if second_conj else ''} with "
+                                  f"{'the plain' if not gs else 'the conjugated'} overlap matrix: for G[i, j] = <phi_i|phi_j> this term carries "
+                                  f"{'conj(G[i, j])' if want_conj else 'G[i, j]'}; with three or more photons whose internal states have a non-trivial "
+                                  f"triad phase the probabilities are those of the complex-conjugate internal states", norm(b)[:100])
+    ctx.require_floor("C05g products of the overlap matrix with an outer product of amplitudes", n, 1)
